@@ -505,22 +505,18 @@ def main(ctx):
             def r_set(p, fld_=fld_):
                 if p.kind != 'return':
                     return 'panic ' + p.msg
-                v = p.val
-                if not (isinstance(v, VAgg) and len(v.fields) == len(JO)):
-                    t = p.term()
-                    return 'result is not the options value'
-                for i, nm in enumerate(JO):
-                    t = strip(p.term(v.fields[i]))
-                    if nm == fld_:
-                        if not (isinstance(t, tuple) and t[0] == 'agg' and t[2] == 'Some' and mentions(t, r'^value$')):
-                            return '%s(value) does not store Some(value)' % fld_
-                        inner = strip(t[3][0])
-                        if inner != ('leaf', 'value'):
-                            return '%s(value) stores something derived from the value, not the value' % fld_
-                    else:
-                        fp = field_path(t)
-                        if not (fp and fp[0] == 'self' and [j for _, j in fp[1]] == [i]):
-                            return '%s(value) disturbs the field %s' % (fld_, nm)
+                t = p.term()
+                # the options value is `self` with overridden fields: ('over', self, (((variant, index), value), ...))
+                if not (isinstance(t, tuple) and t[0] == 'over' and strip(t[1]) == ('leaf', 'self')):
+                    return 'result is not the options value it was called on'
+                ov = list(t[2])
+                if len(ov) != 1 or ov[0][0][1] != JO.index(fld_):
+                    return '%s(value) writes other fields than its own' % fld_
+                v = ov[0][1]
+                if not (isinstance(v, tuple) and v[0] == 'agg' and v[2] == 'Some' and len(v[3]) == 1):
+                    return '%s(value) does not store Some(value)' % fld_
+                if strip(v[3][0]) != ('leaf', 'value'):
+                    return '%s(value) stores something derived from the value, not the value' % fld_
                 return None
             A.require('JwsVerificationOptions::%s/stores-the-argument-as-given' % fld_, paths, r_set,
                       replay={'scenario': 'storage_signing', 'cex': {'only': 'scope' if fld_ == 'method_scope' else ('nonce' if fld_ == 'nonce' else 'method id')}})
